@@ -86,11 +86,10 @@ def real_cases(ctx, rng, nkeys, nflip):
         m = msgs[i] if i < len(msgs) else bytes(rng.randrange(256) for _ in range(32))
         aux = b"\x00" * 32 if i % 3 == 0 else bytes(rng.randrange(256) for _ in range(32))
         # (no hook on the library's nonce helper: the specified nonce is recomputed below from the tagged hashes)
-        res = outcome(pk.sign_schnorr, m, aux)
         if i % 2 == 0:
-            # history independence: an earlier signature of the same message with another aux on the same object
+            # history independence: an earlier signature of the same message with ANOTHER aux on the same object comes first
             outcome(pk.sign_schnorr, m, bytes(32) if aux != bytes(32) else b"\x01" * 32)
-            res = outcome(pk.sign_schnorr, m, aux)
+        res = outcome(pk.sign_schnorr, m, aux)
         Pt = pk.point
         ctx.nontriv(("real-ssign", Pt.parity, d in secrets))
         if res[0] != "ok":
